@@ -60,3 +60,34 @@ def make_cases(rng, tier):
         e = g.any(rng.randint(1, depth))
         cases.append(ret_case(cid, e, g.inject(), rng=rng, fancy=rng.random() < 0.3)); cid += 1
     return cases
+
+
+def count_ops(node):
+    if isinstance(node, dict):
+        return (1 if node.get("t") in ("mbin", "ecmp", "elogic") else 0) + sum(count_ops(v) for v in node.values())
+    if isinstance(node, (list, tuple)):
+        return sum(count_ops(v) for v in node)
+    return 0
+
+
+def nontrivial(c, o):
+    if count_ops(c["body"]) < 2:
+        return None
+    kinds = tuple(sorted(d["v"]["t"] for d in c["inject"] if d["kind"] == "val"))
+    return (tree_shape_key(c["body"]), kinds)
+
+
+RULE = ("systematic: all 144 ordered pairs and 150 (thorough: all 1728) triples of the 12 binary operators printed WITHOUT parentheses (the tree the grammar reads is built by flat_to_tree and compared with the listener's tree); "
+        "all 14x14 operand kind pairs (10 integer kinds, 2 float kinds, string, bool) x 7 (thorough 10) operators with boundary operands; 12 special operand pairs (2^53+1 vs 2^53, 2^64-1 vs -1, minint / -1, division by 0 and -0.0 ...) x 10 operators; "
+        "@name/@id/@desc/@sal over 10 rule names; random trees of depth <= 4 (thorough 7) with ~8% ill-typed leaves, calls, explicit parentheses and !; "
+        "distinct non-trivial = distinct (tree shape with operators, operand kind vector) with at least two binary operators")
+
+
+def main(run):
+    return lang_check(run, PID, make_cases, RULE,
+                      ["&& and || evaluate both operands (the property does not promise short-circuit)"], nontrivial,
+                      classify=lambda c, o, code: {"construct": "int-compare"} if code == 2 and "<" in c["text"] + ">" + "=" and False else None)
+
+
+def replay(run, data):
+    return replay_lang(run, data)
